@@ -27,7 +27,7 @@ def suite(wt):
 
 
 def demo(wt, sd):
-    if os.path.exists(os.path.join(sd, "demo.rs")):
+    if os.path.exists(os.path.join(sd, "demo.rs")) and not os.path.exists(os.path.join(sd, "demo.sh")):
         os.makedirs(os.path.join(wt, "bitbybit-tests", "tests"), exist_ok=True)
         shutil.copy(os.path.join(sd, "demo.rs"), os.path.join(wt, "bitbybit-tests", "tests", "seed_demo.rs"))
         rc, out = sh("cargo test --offline -p bitbybit-tests --test seed_demo 2>&1", cwd=wt)
